@@ -26,3 +26,8 @@ JOBS = [
     S("varintChainedSimpleDecode32Fallback", "H_csDecode32Fallback"),
     S("w_chainedSimpleRoundTrip", "H_csRoundTrip", props=("C01",)),
 ]
+
+JOBS += [
+    C("w_chainedMono", "H_chainedMono", props=("C04",)),
+    S("w_csMono", "H_csMono", props=("C04",)),
+]
